@@ -53,7 +53,7 @@ type c14Methods struct {
 	Tag string
 }
 
-func (m c14Methods) Join(a, b string) string    { return m.rec.note("Join", a, b) }
+func (m c14Methods) Join(a, b string) string       { return m.rec.note("Join", a, b) }
 func (m *c14Methods) PJoin(a string, b int) string { return m.rec.note("PJoin", a, b) }
 
 func c14Vars(log *[]string, jfName string) jet.VarMap {
